@@ -118,4 +118,6 @@ pub fn run(run: &Run) {
         }
         if i < 4 { run.sample(json!({"input": show(&x[..x.len().min(48)]), "len": x.len(), "kind": i % 6})); }
     });
+    // thorough: the same quick workload once more under the AddressSanitizer build (memory errors in the library or its dependencies)
+    if !run.quick() { crate::lanes::asan_rerun(run); }
 }
